@@ -52,6 +52,12 @@ impl<'de> Deserialize<'de> for Transaction {
         D: Deserializer<'de>,
     {
         let json = JsonObject::deserialize(deserializer)?;
+        if let Some((name, value)) = json
+            .iter()
+            .find(|(_, value)| value.as_f64().is_some_and(|v| v < 0.))
+        {
+            return Err(de::Error::custom(format!("negative {name} value {value}")));
+        }
         if json.contains_key("maxPriorityFeePerGas") || json.contains_key("maxFeePerGas") {
             Ok(Transaction::Eip1559(
                 serde_json::from_value(json.into()).map_err(de::Error::custom)?,
